@@ -234,6 +234,42 @@ def run(F, tier, res):
         else:
             res.violate('ORDER', 'fn=%s;flag=%s' % (P, nm), 'inside the per-word loop the attribute flag `%s` is assigned something other than the constant true, and not all of its '
                         'writes sit in one positional colour slot: the meaning of a style string then depends on the order of its words' % nm, where=F.bodies[P]['mir']['span']['at'])
+    # EMPH: the two emph styles carry is_emph = true whatever way they were specified (literally or by reference to another style):
+    # the mark is put on the entries of the RESOLVED style table, on every path from the resolution to the return
+    ne_ = oke_ = 0
+    ps = [q for q in F.fn_bodies if q.endswith('parse_styles::parse_styles')]
+    if not ps:
+        res.anchor_missing('parse_styles::parse_styles')
+    for q in ps:
+        rcalls = [i for i, c in F.calls(q) if callee_of(c).endswith('::resolve_style_references')]
+        marks = {}
+        for bi, blk in enumerate(F.blocks(q)):
+            if blk['cleanup']:
+                continue
+            for st in blk['s']:
+                if st[0] == 'assign' and st[1]['p'] and st[1]['p'][-1][0] == 'field' and st[1]['p'][-1][3] == 'is_emph' \
+                        and st[2][0] == 'use' and 'const' in st[2][1] and 'true' in st[2][1]['const'].get('repr', ''):
+                    base = {'copy': {'l': st[1]['l'], 'p': []}}
+                    for r in F.trace(q, base, deep=True):
+                        if r[0] == 'call' and r[1].endswith('::get_mut'):
+                            keys = [v[1] for a in r[4]['args'][1:] for v in F.operand_literals(q, a) if v[0] == 'str']
+                            from_resolved = any(rr[0] == 'call' and rr[1].endswith('::resolve_style_references') for rr in F.trace(q, r[4]['args'][0], deep=True))
+                            for k in keys:
+                                marks.setdefault(k, []).append((bi, from_resolved))
+        for key in ('minus-emph-style', 'plus-emph-style'):
+            ne_ += 1
+            ms = [b for b, fr in marks.get(key, []) if fr]
+            good = bool(rcalls) and bool(ms)
+            if good:
+                for rc in rcalls:
+                    if Ru.must_pass(F, q, F.cfg(q).get(rc, []), set(ms)):
+                        good = False
+            if good:
+                oke_ += 1
+            else:
+                res.violate('EMPH', 'fn=%s;key=%s' % (q, key), 'the `%s` entry of the resolved style table is not marked is_emph on every path: an emph style given as a reference to '
+                            'another style is painted like the line style (within-line edits lose their emphasis)' % key, where=F.bodies[q]['mir']['span']['at'])
+    res.rule('C12.EMPH', ne_, 2, 'is_emph marks on the resolved entries of minus-emph-style / plus-emph-style', discharged=oke_)
     res.rule('C12.ORDER', no_, 8, 'writes to attribute flags inside the style parser\'s word loop: each is `= true`', discharged=oko_)
     res.rule('C12.WORDS', n, 10, 'attributes / flags the parser can set (%s), each printed with a word that parses back to it' % sorted(field_words), discharged=ok,
              samples=['%s <- %s ; printed %s' % (f, sorted(field_words[f]), dt.get(f)) for f in sorted(field_words)])
